@@ -56,7 +56,11 @@ void run_program(int p, std::string const& pcap)
 	w.hosts["alpha"] = World::Host{ { addr("10.1.0.1"), addr("10.1.0.2") }, error_code(), ms(7) };
 	w.hosts["beta"] = World::Host{ {}, error_code(asio::error::host_not_found), ms(40) };
 	bool nat = (p & 32) != 0;
-	w.on_build = [&](World& ww, sim::simulation&) {
+	// the configuration itself schedules an event while it is being built (a "link change" 12 ms into the simulation)
+	std::unique_ptr<asio::high_resolution_timer> cfg_timer; int64_t cfg_fired = -1, cfg_expiry = -1;
+	w.on_build = [&](World& ww, sim::simulation& s_) {
+		if (p & 1) { cfg_timer.reset(new asio::high_resolution_timer(s_.get_io_context())); cfg_timer->expires_after(ms(12)); cfg_expiry = cfg_timer->expiry().time_since_epoch().count();
+			cfg_timer->async_wait([&](error_code const& ec) { if (!ec) cfg_fired = now_ns(); }); }
 		auto net = ww.queue(0, ms(15), 0, "net");
 		auto lossy = ww.queue(250000, ms(2), 6000, "lossy");
 		ww.chan = [net, lossy](ip::address a, ip::address b) { bool l = a == addr("10.0.0.2") || b == addr("10.0.0.2"); return l ? World::hops_t{ lossy } : World::hops_t{ net }; };
@@ -68,6 +72,7 @@ void run_program(int p, std::string const& pcap)
 		ww.in[addr("10.0.1.1")] = World::hops_t{ ww.queue(1000000, ms(1), 0, "in") };
 	};
 	sim::simulation sim(w);
+	struct CfgTimerGuard { std::unique_ptr<asio::high_resolution_timer>& t; ~CfgTimerGuard() { t.reset(); } } cfg_guard{ cfg_timer }; // gone before the simulation, also when the program is aborted by an exception
 	if (!pcap.empty()) sim.log_pcap(pcap.c_str());
 	asio::io_context nA(sim, addr("10.0.0.1")), nA2(sim, addr("10.0.0.2")), nB(sim, addr("10.0.1.1"));
 	int handlers = 0;
@@ -98,6 +103,7 @@ void run_program(int p, std::string const& pcap)
 		int n = lossy ? 30000 : 5000; k->wc.resize(size_t(n)); k->ws.resize(size_t(n / 3)); for (size_t j = 0; j < k->wc.size(); ++j) k->wc[j] = pb(lossy * 2, int64_t(j)); for (size_t j = 0; j < k->ws.size(); ++j) k->ws[j] = pb(lossy * 2 + 1, int64_t(j));
 		k->a.reset(new ip::tcp::acceptor(nB)); k->a->open(ip::tcp::v4()); k->a->bind(ip::tcp::endpoint(addr("10.0.1.1"), (unsigned short)(6000 + lossy))); k->a->listen();
 		k->c.reset(new ip::tcp::socket(lossy ? nA2 : nA)); k->s.reset(new ip::tcp::socket(nB));
+		if (p & 64) { std::unique_ptr<ip::tcp::acceptor> ma(new ip::tcp::acceptor(std::move(*k->a))); k->a = std::move(ma); } // the listening acceptor is moved too
 		if (p & 64) { k->c->open(ip::tcp::v4()); std::unique_ptr<ip::tcp::socket> m1(new ip::tcp::socket(std::move(*k->c))); k->c = std::move(m1); std::unique_ptr<ip::tcp::socket> m2(new ip::tcp::socket(std::move(*k->s))); k->s = std::move(m2); }
 		auto pe = std::make_shared<ip::tcp::endpoint>();
 		k->a->async_accept(*k->s, *pe, [&, k, pe](error_code const& ec) { error_code e2; H(fmt("tcp%d accept %s peer %s remote %s local %s", k->id, ecs(ec).c_str(), eps(*pe).c_str(), eps(k->s->remote_endpoint(e2)).c_str(), eps(k->s->local_endpoint(e2)).c_str())); if (ec) return; writer(k, false); reader(k, false); });
@@ -126,13 +132,14 @@ void run_program(int p, std::string const& pcap)
 	if (special_stop) { tm.push_back(arena_timer(nA, slot)); auto* t = tm.back().get(); t->expires_after(chrono::duration_cast<duration>(chrono::hours(100000))); t->async_wait([&](error_code const&) { sim.stop(); }); }
 	std::size_t n = sim.run();
 	tr(fmt("run returned %zu at %lld", n, (long long)now_ns()));
+	if (p & 1) tr(fmt("configuration timer: expiry %lld, fired at %lld", (long long)cfg_expiry, (long long)cfg_fired));
 	for (auto& r : w.log) tr(r.str());
 	for (auto& l : w.lookups) tr("lookup " + l);
 	// clean up in the documented order
 	error_code ig; if (ub) ub->cancel(ig);
 	for (auto& k : conns) { k->c->close(ig); k->s->close(ig); k->a->close(ig); }
 	if (!special_stop) sim.run();
-	res.reset(); ua.reset(); ub.reset(); conns.clear(); tm.clear();
+	res.reset(); ua.reset(); ub.reset(); conns.clear(); tm.clear(); cfg_timer.reset();
 }
 
 __attribute__((noinline)) void dirty_stack(int byte) { volatile char big[65536]; for (size_t i = 0; i < sizeof big; ++i) big[i] = char(byte); (void)big[4711]; }
